@@ -15,11 +15,20 @@ Theorems (over Model/ListOffsets.lean and Model/Seek.lean):
                           against the partition's first/last offsets exactly when the mode demands it
   seek_no_change_on_error a failed Seek leaves the connection offset unchanged
   offset_roundtrip        Conn.Offset reports a position that Seek maps back to the same connection offset
+  mapping_exact_*         the field mappings as theorems over Model/Mappings.lean and Model/ListOffsets.lean:
+    mapping_exact_offsetFetch      coordinator state → OffsetFetch answer → user response = the state, per requested partition
+    mapping_exact_offsetCommit_request / _response   every user commit reaches the wire unchanged; per-partition errors come back
+    mapping_exact_consumerOffsets  partition → committed offset of the coordinator
+    mapping_exact_metadata         leader / replicas / ISR of every partition resolve to the listed brokers; order and fields kept
+    mapping_exact_readPartitions   same for Conn.ReadPartitions (placeholder brokers for unlisted ids)
+    mapping_exact_listOffsets_step one merged entry updates its own partition's record only, in the field its timestamp selects
 -/
 import KafkaVerif.Model.ListOffsets
 import KafkaVerif.Model.Seek
 import KafkaVerif.Spec.Offsets
 import KafkaVerif.Lemmas.ListOffsets
+import KafkaVerif.Model.Mappings
+import KafkaVerif.Lemmas.Mappings
 
 namespace KV.Props.C19
 open KV.ListOffsets KV.Seek
@@ -253,5 +262,195 @@ theorem offset_roundtrip (cur : Int) (h : cur ≠ -2 ∧ cur ≠ -1) :
   have h1 : (cur == -2) = false := by simpa using h.1
   have h2 : (cur == -1) = false := by simpa using h.2
   simp [offsetOf, h1, h2, seek, seekStart, seekAbsolute, seekEnd, seekCurrent]
+
+/-! ## field mappings (`mapping_exact`) -/
+
+section mappings
+open KV.Mappings
+open KV.Routing (lookupD MResponse MBroker MTopic MPartition)
+open KV.Lemmas.Mappings KV.Lemmas.Routing
+
+/-- the group coordinator's state: committed (offset, metadata) and per-partition error codes -/
+structure Coord where
+  committed : List ((String × Int) × (Int × String))
+  errs : List ((String × Int) × Int)
+
+/-- what the coordinator holds for (topic, partition): (offset, metadata, error); −1/"" when nothing is committed
+or an error applies -/
+def Coord.value (c : Coord) (t : String) (p : Int) : Int × String × Int :=
+  match c.errs.lookup (t, p) with
+  | some e => (-1, "", e)
+  | none => match c.committed.lookup (t, p) with
+    | some (o, m) => (o, m, 0)
+    | none => (-1, "", 0)
+
+def Coord.part (c : Coord) (t : String) (p : Int) : OFPart :=
+  ⟨p, (c.value t p).1, (c.value t p).2.1, (c.value t p).2.2⟩
+
+/-- the coordinator's OffsetFetch answer (the environment) -/
+def coordFetch (c : Coord) (asked : List (String × List Int)) : OFResponse :=
+  { throttle := 0, error := 0, topics := asked.map fun x => (x.1, x.2.map (c.part x.1)) }
+
+/-- **OffsetFetch**: for a request naming topics (a Go map: distinct names) the user-level response holds, for
+every requested topic, one entry per requested partition in request order carrying exactly the coordinator's
+committed offset, metadata and error for that partition — an error on one partition is on that entry only. -/
+theorem mapping_exact_offsetFetch (c : Coord) (g : String) (topics : List (String × List Int))
+    (hne : topics ≠ []) (hnd : (topics.map (·.1)).Nodup) (t : String) (ps : List Int) (hmem : (t, ps) ∈ topics) :
+    (offsetFetchRequest g topics) = (g, some topics) ∧
+    (offsetFetchResponse (coordFetch c topics)).topics.lookup t
+      = some (ps.map fun p => ⟨p, (c.value t p).1, (c.value t p).2.1, (c.value t p).2.2⟩) := by
+  constructor
+  · have : topics.length > 0 := by cases topics with | nil => exact absurd rfl hne | cons _ _ => simp
+    simp [offsetFetchRequest, this]
+  · simp only [offsetFetchResponse, coordFetch, goMap]
+    apply lookup_foldl_ainsert
+    · simp only [List.map_map, List.mem_map]
+      refine ⟨(t, ps), hmem, ?_⟩
+      simp [convOF, Coord.part, Function.comp]
+    · simp only [List.map_map]; exact hnd
+
+example : (offsetFetchRequest "g" []).2 = none := rfl
+
+/-- **OffsetCommit, request side**: every commit the user listed reaches the protocol request with its partition,
+offset and metadata unchanged, in the user's order, under its topic; nothing else is added. -/
+theorem mapping_exact_offsetCommit_request (g : String) (gen : Int) (mem inst : String)
+    (topics : List (String × List UCommit)) (now : Int) :
+    (offsetCommitRequest g gen mem inst topics now).group = g ∧
+    (offsetCommitRequest g gen mem inst topics now).generation = gen ∧
+    (offsetCommitRequest g gen mem inst topics now).member = mem ∧
+    (offsetCommitRequest g gen mem inst topics now).topics.map
+        (fun x => (x.1, x.2.map fun p => (p.index, p.offset, p.metadata))) = topics := by
+  refine ⟨rfl, rfl, rfl, ?_⟩
+  simp only [offsetCommitRequest, List.map_map]
+  conv => rhs; rw [← List.map_id topics]
+  apply List.map_congr_left
+  intro x _
+  obtain ⟨t, cs⟩ := x
+  simp only [Function.comp, List.map_map, id]
+  congr 1
+  conv => rhs; rw [← List.map_id cs]
+  apply List.map_congr_left
+  intro y _
+  rfl
+
+/-- **OffsetCommit, response side**: the per-partition error codes come back under their topic, unchanged -/
+theorem mapping_exact_offsetCommit_response (res : List (String × List (Int × Int)))
+    (hnd : (res.map (·.1)).Nodup) (t : String) (ps : List (Int × Int)) (hmem : (t, ps) ∈ res) :
+    (offsetCommitResponse res).lookup t = some ps := by
+  simp only [offsetCommitResponse, goMap]
+  apply lookup_foldl_ainsert
+  · simp only [List.mem_map]
+    refine ⟨(t, ps), hmem, ?_⟩
+    simp
+  · simp only [List.map_map]; exact hnd
+
+/-- **ConsumerOffsets**: partition → the coordinator's committed offset, for distinct partition ids -/
+theorem mapping_exact_consumerOffsets (c : Coord) (t : String) (ps : List Int) (hnd : ps.Nodup) (p : Int) (hp : p ∈ ps) :
+    (consumerOffsets ((ps.map (c.part t)).map convOF)).lookup p = some (c.value t p).1 := by
+  simp only [consumerOffsets, goMap]
+  apply lookup_foldl_ainsert
+  · simp only [List.map_map, List.mem_map]
+    exact ⟨p, hp, rfl⟩
+  · simp only [List.map_map]
+    have : ps.map ((fun x : Int × Int => x.1) ∘ (fun q : UOFPart => (q.partition, q.committed)) ∘ convOF ∘ c.part t) = ps := by
+      conv => rhs; rw [← List.map_id ps]
+      exact List.map_congr_left (fun _ _ => rfl)
+    rw [this]; exact hnd
+
+/-- the broker map built from a listing with distinct node ids resolves every listed id to its entry -/
+theorem brokerMap_lookup (bs : List MBroker) (hnd : (bs.map (·.nodeID)).Nodup) (b : MBroker) (hb : b ∈ bs) :
+    (brokerMap bs).lookup b.nodeID = some (convBroker b) := by
+  simp only [brokerMap, goMap]
+  apply lookup_foldl_ainsert
+  · exact List.mem_map.mpr ⟨b, hb, rfl⟩
+  · simp only [List.map_map]; exact hnd
+
+/-- an entry the broker map stores under `id` is a broker with that id -/
+theorem brokerMap_id (bs : List MBroker) (id : Int) (b : UBroker) (h : (brokerMap bs).lookup id = some b) : b.id = id := by
+  have : ∀ (l : List (Int × UBroker)) (acc : List (Int × UBroker)), (∀ e ∈ l, e.2.id = e.1) →
+      (∀ k v, acc.lookup k = some v → v.id = k) →
+      ∀ k v, (l.foldl (fun m e => KV.Routing.ainsert m e.1 e.2) acc).lookup k = some v → v.id = k := by
+    intro l
+    induction l with
+    | nil => intro acc _ h; exact h
+    | cons e es ih =>
+      intro acc hl hacc
+      apply ih _ (fun x hx => hl x (List.mem_cons_of_mem _ hx))
+      intro k v hk
+      by_cases hke : k = e.1
+      · subst hke
+        rw [lookup_ainsert_self] at hk
+        cases hk; exact hl e List.mem_cons_self
+      · rw [lookup_ainsert_other _ _ _ _ hke] at hk
+        exact hacc k v hk
+  refine this _ [] ?_ (fun k v hk => by simp [List.lookup] at hk) id b h
+  intro e he
+  obtain ⟨x, _, rfl⟩ := List.mem_map.mp he
+  rfl
+
+/-- **Metadata**: brokers, topics and partitions are reported in the answer's order with their name, internal
+flag, error code and partition id unchanged, and the leader of every partition whose leader id is listed is
+reported as exactly that broker (id, host, port, rack). -/
+theorem mapping_exact_metadata (res : MResponse) (hnd : (res.brokers.map (·.nodeID)).Nodup) :
+    (clientMetadata res).brokers = res.brokers.map convBroker ∧
+    (clientMetadata res).topics.map (fun t => (t.name, t.internal, t.error, t.partitions.map fun p => (p.id, p.error)))
+      = res.topics.map (fun t => (t.name, t.internal, t.error, t.partitions.map fun p => (p.index, p.error))) ∧
+    (∀ t ∈ res.topics, ∀ p ∈ t.partitions, ∀ b ∈ res.brokers, b.nodeID = p.leader →
+      lookupD (brokerMap res.brokers) p.leader UBroker.zero = convBroker b) := by
+  refine ⟨rfl, ?_, ?_⟩
+  · simp [clientMetadata, List.map_map, Function.comp]
+  · intro t _ p _ b hb hid
+    simp [lookupD, ← hid, brokerMap_lookup res.brokers hnd b hb]
+
+/-- **ReadPartitions** resolves replicas / ISR through the same map; an id without a listed broker is reported as
+a placeholder carrying that id (never as another broker) -/
+theorem mapping_exact_readPartitions (bs : List MBroker) (hnd : (bs.map (·.nodeID)).Nodup) (ids : List Int) :
+    (makeBrokers (brokerMap bs) ids).map (·.id) = ids ∧
+    (∀ b ∈ bs, b.nodeID ∈ ids → convBroker b ∈ makeBrokers (brokerMap bs) ids) := by
+  constructor
+  · simp only [makeBrokers, List.map_map]
+    conv => rhs; rw [← List.map_id ids]
+    apply List.map_congr_left
+    intro k _
+    simp only [Function.comp, id]
+    cases h : (brokerMap bs).lookup k with
+    | none => rfl
+    | some b => exact brokerMap_id bs k b h
+  · intro b hb hin
+    simp only [makeBrokers, List.mem_map]
+    exact ⟨b.nodeID, hin, by rw [brokerMap_lookup bs hnd b hb]⟩
+
+
+theorem ainsert_eq {κ ν : Type} [BEq κ] : @KV.ListOffsets.ainsert κ ν _ = @KV.Routing.ainsert κ ν _ := rfl
+
+/-- **Client.ListOffsets, one merged entry**: folding one response entry into the per-partition records replaces
+the record of its own (topic, partition) only; the new record keeps the partition id and sets FirstOffset /
+LastOffset / an Offsets entry as the entry's (restored) timestamp selects, and the error code iff the entry
+carries one.  (Hence a failed part's placeholder marks its own partition only.) -/
+theorem mapping_exact_listOffsets_step (m : List ((String × Int) × PartitionOffsets)) (t : String) (p : ResPart)
+    (cur : PartitionOffsets) (hcur : m.lookup (t, p.partition) = some cur) :
+    ∃ r, clientApply m ⟨0, [(t, [p])]⟩ = some (KV.ListOffsets.ainsert m (t, p.partition) r) ∧
+      (∀ k, k ≠ (t, p.partition) → (KV.ListOffsets.ainsert m (t, p.partition) r).lookup k = m.lookup k) ∧
+      (KV.ListOffsets.ainsert m (t, p.partition) r).lookup (t, p.partition) = some r ∧
+      r.partition = cur.partition ∧
+      (p.timestamp = firstOffset → r.first = p.offset ∧ r.last = cur.last ∧ r.offsets = cur.offsets) ∧
+      (p.timestamp = lastOffset → r.last = p.offset ∧ r.first = cur.first ∧ r.offsets = cur.offsets) ∧
+      (p.timestamp ≠ firstOffset → p.timestamp ≠ lastOffset →
+        r.first = cur.first ∧ r.last = cur.last ∧ r.offsets = KV.ListOffsets.ainsert cur.offsets p.offset p.timestamp) ∧
+      (p.error ≠ 0 → r.error = p.error) ∧ (p.error = 0 → r.error = cur.error) := by
+  have hlook : ∀ r : PartitionOffsets,
+      (∀ k, k ≠ (t, p.partition) → (KV.ListOffsets.ainsert m (t, p.partition) r).lookup k = m.lookup k) ∧
+      (KV.ListOffsets.ainsert m (t, p.partition) r).lookup (t, p.partition) = some r := by
+    intro r
+    rw [ainsert_eq]
+    exact ⟨fun k hk => lookup_ainsert_other m _ k r hk, lookup_ainsert_self m _ r⟩
+  by_cases hf : p.timestamp = firstOffset <;> by_cases hl : p.timestamp = lastOffset <;>
+    by_cases he : p.error = 0 <;>
+    simp only [clientApply, List.flatMap_cons, List.flatMap_nil, List.map_cons, List.map_nil, List.append_nil,
+      List.foldlM_cons, List.foldlM_nil, hcur, bind, Option.bind, pure] <;>
+    simp [hf, hl, he, firstOffset, lastOffset] at * <;>
+    exact ⟨_, rfl, (hlook _).1, (hlook _).2, by simp_all [firstOffset, lastOffset]⟩
+
+end mappings
 
 end KV.Props.C19
